@@ -176,7 +176,8 @@ func (a *action) nativeMsg(signer common.Address) (sdk.Msg, bool) {
 // call-tree model: who is msg.sender / address(this) at every frame, which frames revert
 
 type node struct {
-	Kind   string // "sys" "emitter" "proxy" "dproxy" "script"
+	Kind   string // "sys" "clone" "emitter" "proxy" "dproxy" "script"
+	Code   []byte // clone: the system contract's runtime code
 	Sys    string // for sys: "staking" | "gov"
 	Addr   common.Address
 	Target *node // proxy, dproxy
@@ -224,12 +225,12 @@ type emitted struct {
 // exec interprets node n running with address(this)=self, msg.sender=sender.
 func exec(n *node, self, sender common.Address, in payload, path string) (bool, []emitted) {
 	switch n.Kind {
-	case "sys":
+	case "sys", "clone":
 		// compiled Solidity: non-payable, unknown selector / short calldata revert
 		if in.Value || in.Act == nil || in.Act.Sys != n.Sys {
 			return false, nil
 		}
-		return true, []emitted{{Addr: self, Sender: sender, Act: in.Act, Path: path + ">" + n.Sys}}
+		return true, []emitted{{Addr: self, Sender: sender, Act: in.Act, Path: path + ">" + n.Kind + ":" + n.Sys}}
 	case "emitter":
 		if in.Look == nil {
 			kit.Failf("emitter without look-alike payload")
@@ -286,6 +287,8 @@ func (n *node) describe() string {
 	switch n.Kind {
 	case "sys":
 		return n.Sys
+	case "clone":
+		return "clone:" + n.Sys
 	case "emitter":
 		return "emitter"
 	case "proxy", "dproxy":
